@@ -48,7 +48,7 @@ INVS = ("InvNothingBeforeEvaluate InvAtMostOncePerNode InvExactlyOnceNeeded InvC
         "InvLazyTypeOK InvLDoneOnlyNeeded InvNoCallAfterEvaluate InvBuiltDefined InvMutantsRejected InvReusedNeedNoCall "
         "InvOldNodesOnlySources InvFailuresAccounted InvNoValueFromFailure InvFailedEvaluateOnlyRaises "
         "InvRetryIsAFirstEvaluate InvEagerReturnNoFault")
-BCFG = """SPECIFICATION LBSpec
+BCFG = """SPECIFICATION {spec}
 CONSTANTS N = {n} Rich = {rich} Shard = {shard} NShards = {nshards} MaxEv = {maxev} AllKw = {allkw} MaxHandles = {maxh}
   Modes = {modes} UserCacheOn = {ucache} FaultsOn = {faults} MaxFailEv = {maxfail}
 INVARIANT """ + INVS + "\n"
@@ -436,7 +436,7 @@ def fault_history(tdesc: dict, order: tuple, plan: dict, variant: str, items: li
     share : the items as successive handles of ONE construct_dag() block, the first abandoned after a single evaluate()
             (the later ones share its nodes, the one that raised included), then the first item again outside any block
     cached: the pipeline has a user cache; per item a handle abandoned after a single evaluate(), then a handle for the same
-            inputs (which finds the earlier handle's nodes in the cache) evaluated twice, inside a construct_dag() block"""
+            inputs (which finds the earlier handle's nodes in the cache) evaluated twice"""
     n = len(tdesc["funcs"])
     tc = with_cache(tdesc, ["first", "all", "last"][k % 3], "lru" if k % 5 == 4 else "simple") if variant == "cached" else tdesc
     pd = pcall.tla_desc_to_py(tc)
@@ -461,7 +461,9 @@ def fault_history(tdesc: dict, order: tuple, plan: dict, variant: str, items: li
         for j, (o, kw) in enumerate(items):
             kk = k + j
             evs += block_history(lpl, [(o, kw, MODES[kk % 4], 1)], "in" if kk % 3 == 2 else "off", kk)
-            evs += block_history(lpl, [(o, kw, MODES[(kk + kk // 4) % 4], 2)], "in" if kk % 2 == 0 else "out", kk)
+            # (no construct_dag() here: which nodes of a recorded graph may be old is stated in terms of completed
+            # invocations - memo - and the cache also holds the nodes of a handle that never completed)
+            evs += block_history(lpl, [(o, kw, MODES[(kk + kk // 4) % 4], 2)], "off", kk)
     return {"desc": t2, "ev": evs, "order": list(order), "cached": variant == "cached", "fault": variant}
 
 
@@ -717,7 +719,7 @@ def stream_validate(ctx: Ctx, name: str, trace_lists: Iterable[list[dict]], *, b
 
     def job(bi: int, trs: list[dict]):
         bctx = _BatchCtx(ctx)
-        rej = validate_traces(bctx, "TracePipelineLazy", trs, f"{name}{bi}", invariants=invs, strip=("order", "cached"), chunk=chunk)
+        rej = validate_traces(bctx, "TracePipelineLazy", trs, f"{name}{bi}", invariants=invs, strip=("order", "cached", "fault"), chunk=chunk)
         return bctx, [(r, trs[i]) for i, r in sorted(rej.items())]
 
     def submit(trs: list[dict]) -> None:
@@ -782,11 +784,12 @@ def run(ctx: Ctx) -> None:
         both = '{"call", "full"}'
 
         def mc(what: str, wd: str, workers: int, heap: str = "3g", nshards: int = 1, modes: str = both, ucache: str = "FALSE",
-               **consts) -> None:
-            for sh in range(nshards):
+               faults: str = "FALSE", maxfail: int = 0, spec: str = "LBSpec", shards: Iterable[int] | None = None, **consts) -> None:
+            for sh in (range(nshards) if shards is None else shards):
                 label = what + (f" shard {sh + 1}/{nshards}" if nshards > 1 else "") + " (deadlock checking on)"
                 mc_jobs.append((label, pool.submit(
-                    tlc_job, "MC_PipelineLazy", BCFG.format(shard=sh, nshards=nshards, modes=modes, ucache=ucache, **consts),
+                    tlc_job, "MC_PipelineLazy", BCFG.format(shard=sh, nshards=nshards, modes=modes, ucache=ucache, faults=faults,
+                                                            maxfail=maxfail, spec=spec, **consts),
                     ctx.workdir(f"{wd}_{sh}"), workers=workers, deadlock=True, allow_violation=False, timeout=6000, heap=heap)))
 
         if quick:
@@ -795,6 +798,13 @@ def run(ctx: Ctx) -> None:
                allkw="FALSE", maxh=2)
             mc("LBSpec N=2, valid cuts, user cache (first / all functions flagged)", "b2c", 4, modes='{"call"}', ucache="TRUE",
                n=2, rich="FALSE", maxev=2, allkw="FALSE", maxh=1)
+            # fault plans (FaultChoice: each function raising once / always, all raising once): evaluate() calls that raise
+            # followed by further ones; quick: one quarter of the description universe (DescHash), pipeline() convention
+            mc("LBSpec N=2, valid cuts, fault plans, up to 2 evaluate() calls that raise per handle", "b2f", 2, heap="2g",
+               nshards=4, shards=[ctx.seed % 4], modes='{"call"}', faults="TRUE", maxfail=2, n=2, rich="FALSE", maxev=2,
+               allkw="FALSE", maxh=1)
+            mc("EBSpec N=2, valid cuts, fault plans: the eager twin", "e2f", 1, heap="1g", faults="TRUE", maxfail=2,
+               spec="EBSpec", n=2, rich="FALSE", maxev=2, allkw="FALSE", maxh=1)
             exports = [("LUSpec N=2", dict(n=2, rich="FALSE"), "u2", "3g", "full")]
         else:
             mc("LBSpec N=2 rich, all keyword sets, 3 evaluates", "b2r", 3, n=2, rich="TRUE", maxev=3, allkw="TRUE", maxh=1)
@@ -804,6 +814,13 @@ def run(ctx: Ctx) -> None:
                n=2, rich="TRUE", maxev=2, allkw="FALSE", maxh=1)
             mc("LBSpec N=3, valid cuts, pipeline()/run()/func() convention", "b3", 2, heap="2g", nshards=3, modes='{"call"}',
                n=3, rich="FALSE", maxev=2, allkw="FALSE", maxh=1)
+            mc("LBSpec N=2, valid cuts, fault plans, up to 2 evaluate() calls that raise per handle, 2 handles per "
+               "construct_dag block", "b2f", 2, heap="3g", nshards=4, faults="TRUE", maxfail=2, n=2, rich="FALSE", maxev=2,
+               allkw="FALSE", maxh=2)
+            mc("LBSpec N=2, valid cuts, fault plans, user cache", "b2fc", 2, heap="3g", nshards=2, modes='{"call"}', ucache="TRUE",
+               faults="TRUE", maxfail=2, n=2, rich="FALSE", maxev=2, allkw="FALSE", maxh=1)
+            mc("EBSpec N=2 rich, valid cuts, fault plans: the eager twin", "e2f", 2, heap="2g", faults="TRUE", maxfail=2,
+               spec="EBSpec", n=2, rich="TRUE", maxev=2, allkw="FALSE", maxh=1)
             exports = [("LUSpec N=2 rich", dict(n=2, rich="TRUE"), "u2r", "3g", "full"),
                        ("LUSpec N=3", dict(n=3, rich="FALSE"), "u3", "3g", "lean")]
         exp_jobs = [(what, scheme, pool.submit(tlc_job, "MC_PipelineLazy", UCFG.format(**consts), ctx.workdir(wd), workers=2,
@@ -863,7 +880,17 @@ def selftest(ctx: Ctx, traces: list[dict]) -> None:
     def has_edges(evs) -> bool:
         return any(x["e"] == "graph" and x["edges"] for x in evs)
 
-    good = [pick(has_eval_calls), pick(has_edges)]
+    def retry_at(evs) -> int:
+        """Index of the `callfail` of a lazy evaluate() that raised and whose retry invokes the same function last:
+        callfail f | raise | evalbegin | call f | evaluate(full)"""
+        for k in range(len(evs) - 4):
+            a, b, c, dd, e = evs[k:k + 5]
+            if (a["e"] == "callfail" and b["e"] == "raise" and c["e"] == "evalbegin" and dd["e"] == "call" and dd["f"] == a["f"]
+                    and e["e"] in ("evaluate", "evaluatefull")):
+                return k
+        return -1
+
+    good = [pick(has_eval_calls), pick(has_edges), pick(lambda evs: retry_at(evs) >= 0)]
     batch: list[dict] = [copy.deepcopy(g) for g in good]
     expect: dict[int, int] = {}
     names: dict[int, str] = {}
@@ -915,8 +942,22 @@ def selftest(ctx: Ctx, traces: list[dict]) -> None:
     a, b = t["ev"][k]["edges"][0]
     t["ev"][k]["edges"].append([b, a])
     add("task-graph edge added (reverse edge)", t, k)
-    rej = validate_traces(ctx, "TracePipelineLazy", batch, "selftest", invariants=[], strip=("order", "cached"), count=False)
-    ctx.selftest("trace-corruption (7 single corruptions + 2 untouched histories)", rej == expect,
+    # 8.-11. fault histories: an evaluate() that raised, followed by one that returned
+    kf = retry_at(good[2]["ev"])
+    t = copy.deepcopy(good[2])
+    t["ev"][kf]["e"] = "call"
+    add("invocation that raised reported as completed", t, kf)
+    t = copy.deepcopy(good[2])
+    t["ev"][kf + 1] = lev(e="evaluate", val=to_json(None), n=1)
+    add("evaluate() reported to return a value after an invocation raised", t, kf + 1)
+    t = copy.deepcopy(good[2])
+    t["ev"][kf + 1]["val"]["f"] += "_other"
+    add("exception message altered", t, kf + 1)
+    t = copy.deepcopy(good[2])
+    del t["ev"][kf + 3]
+    add("evaluate() after one that raised returns without invoking the function that raised", t, kf + 3)
+    rej = validate_traces(ctx, "TracePipelineLazy", batch, "selftest", invariants=[], strip=("order", "cached", "fault"), count=False)
+    ctx.selftest("trace-corruption (11 single corruptions + 3 untouched histories)", rej == expect,
                  f"rejected={rej} expected={expect} ({names})")
 
 
